@@ -61,8 +61,8 @@ def r3_c08(scn, v):
 
     d = v.detail or {}
     ws = d.get("writers") or []
-    if not ws:
-        return False
+    if len(ws) < 2:
+        return False  # a stale value needs an older and a newer writer
     rch = lang.reach(scn["ir"])
     for i in range(len(ws)):
         for j in range(i + 1, len(ws)):
@@ -77,3 +77,10 @@ def r17_c09(scn, v):
     on that path, so the output is rendered from the initial context and published values are lost."""
     d = v.detail or {}
     return v.kind in ("output-differs", "status-after-output-differs") and bool(d.get("completed_on_resume"))
+
+
+def r23_c17(scn, v):
+    """R23: the workflow failed through the fail command, its clean-up tasks failed too; a rerun of those
+    tasks that now succeed ends `succeeded` - the fail command is forgotten - where the clean run fails."""
+    d = v.detail or {}
+    return v.kind == "status-differs-from-clean-run" and d.get("rerun_status") == "succeeded" and d.get("clean_status") == "failed" and "fail-command" in (d.get("events") or [])
